@@ -4,7 +4,11 @@
 //! sugar by the harness's own renderer — `<S {-- P>` for `<{S} --> P>`, `<S --] P>` for `<S --> [P]>`,
 //! `<S {-] P>` for both, `<P <\> S>` for `<S </> P>`, images as connecter + components with the
 //! placeholder at its index, `+0007` for interval 7, `_x` for the placeholder — and both pipelines
-//! must return exactly that value, for the sugared and for the desugared text.
+//! must return exactly that value, for the sugared and for the desugared text.  In two of five sugar
+//! variants the derived copulas, image connecters and placeholder / interval prefixes are spelled from
+//! the harness's own pinned copy of the documented vocabulary (`surface::PINNED`), not from the table
+//! the parsers themselves read, so a change of the table that keeps both pipelines consistent with
+//! each other still shows.
 
 use super::common::*;
 use crate::desc::*;
@@ -22,6 +26,8 @@ fn sugar_for(variant: u64) -> Sugar {
         interval_pad: [0usize, 3, 1, 17, 30, 64][(variant % 6) as usize],
         placeholder_suffix: ["", "x", "123", "_", "abc-d"][((variant / 4) % 5) as usize].to_string(),
         coin: if variant % 3 == 0 { None } else { Some(variant.wrapping_mul(0x9E37_79B9_7F4A_7C15) | 1) },
+        // two of every five variants spell the sugar with the harness's pinned copy of the documented vocabulary
+        pinned: variant % 5 < 2,
     }
 }
 
